@@ -323,7 +323,7 @@ fn show_walk(w: &[(String, u16, u32)]) -> String { format!("W[{}]", w.iter().map
 enum Ev {
     Acquire(u32), Query(u32, Nm, u16), Walk(u32), Release(u32),
     WAcquire, WQueue, WTake, WOpen, Update(Nm, u16, u32), Remove(Nm, u16), Touch(Nm), RemoveAll, RemoveAllAt(Nm),
-    CnameAt(Nm, u32), CutAt(Nm, u32, Option<u32>, Option<u32>), Regular(Nm), Commit, Drop,
+    CnameAt(Nm, u32), CutAt(Nm, u32, Option<u32>, Option<u32>), Regular(Nm), Commit, CommitBump, Drop,
     /// a data operation through the root handle kept from the session that the last commit/drop ended
     Stale(Box<Ev>),
 }
@@ -336,7 +336,7 @@ impl Ev {
             Ev::Update(n, t, rr) => format!("u:{}:{}:{}", n.word(), t, rr), Ev::Remove(n, t) => format!("r:{}:{}", n.word(), t), Ev::Touch(n) => format!("t:{}", n.word()),
             Ev::RemoveAll => "ra".into(), Ev::RemoveAllAt(n) => format!("rn:{}", n.word()), Ev::CnameAt(n, id) => format!("cn:{}:{}", n.word(), id),
             Ev::CutAt(n, ns, ds, g) => format!("ct:{}:{}:{}:{}", n.word(), ns, oword(ds), oword(g)),
-            Ev::Regular(n) => format!("rg:{}", n.word()), Ev::Commit => "c".into(), Ev::Drop => "d".into(),
+            Ev::Regular(n) => format!("rg:{}", n.word()), Ev::Commit => "c".into(), Ev::CommitBump => "cb".into(), Ev::Drop => "d".into(),
             Ev::Stale(e) => format!("s:{}", e.word()),
         }
     }
@@ -592,10 +592,18 @@ impl Sys {
                 } else { obs = Some("granted".into()); }
             }
             Ev::WOpen => { if let Some(w) = &self.writer { self.root = Some(self.rt.block_on(w.open(false)).unwrap()); } }
-            Ev::Commit => {
+            Ev::Commit | Ev::CommitBump => {
+                let bump = matches!(e, Ev::CommitBump);
                 if let Some(w) = self.writer.as_mut() {
                     if let Some(r) = self.root.take() { self.stale_root = Some(r); }
-                    self.rt.block_on(w.commit(false)).unwrap();
+                    self.rt.block_on(w.commit(bump)).unwrap();
+                    if bump {
+                        // commit(true): a zone that had a SOA gets serial + 1 unless the writer stored another SOA
+                        let k = (Nm(vec![]), T_SOA);
+                        if let Some(old) = self.committed.rr.get(&k).copied() {
+                            if self.pending.rr.get(&k).map_or(true, |n| *n == old) { self.pending.rr.insert(k, old.wrapping_add(1)); }
+                        }
+                    }
                     self.committed = self.pending.clone();
                     let rd = self.zone.read();
                     self.pre_session = Some(self.snapshot(rd.as_ref(), fails));
@@ -642,7 +650,7 @@ impl Sys {
                 }
                 self.check_fresh(fails, "abort_visible", "after drop");
             }
-            Ev::Commit => self.check_fresh(fails, "commit_not_atomic", "after commit"),
+            Ev::Commit | Ev::CommitBump => self.check_fresh(fails, "commit_not_atomic", "after commit"),
             d if d.is_data() || matches!(d, Ev::WOpen | Ev::WAcquire | Ev::WQueue | Ev::WTake | Ev::Stale(_)) => self.check_fresh(fails, "commit_not_atomic", &format!("before commit, after {}", d.word())),
             _ => {}
         }
@@ -753,7 +761,7 @@ fn gen_trace(r: &mut Rng, names: &[Nm], targets: &[Nm], max_len: usize, stale: b
                 let e = gen_data(r, n, val);
                 evs.push(e);
             }
-            17 | 18 => { if writer { if open { have_handle = true; } open = false; evs.push(Ev::Commit); } }
+            17 | 18 => { if writer { if open { have_handle = true; } open = false; evs.push(if r.chance(1, 4) { Ev::CommitBump } else { Ev::Commit }); } }
             _ => { if writer { if open { have_handle = true; } writer = false; open = false; evs.push(Ev::Drop); if queued { queued = false; writer = true; evs.push(Ev::WTake); } } }
         }
     }
@@ -947,6 +955,10 @@ fn main() {
                      Ev::WAcquire, Ev::WOpen, Ev::Regular(p(&[3])), Ev::CutAt(p(&[2]), 95, None, None), Ev::Query(0, p(&[3, 4]), T_A), Ev::Commit, Ev::Acquire(1),
                      Ev::Query(1, p(&[3, 4]), T_A), Ev::Query(1, p(&[2]), T_A), Ev::Query(1, p(&[2]), T_DS), Ev::Query(0, p(&[2]), T_A), Ev::Walk(1), Ev::Walk(0),
                      Ev::WOpen, Ev::CutAt(p(&[3]), 96, None, Some(97)), Ev::Drop, Ev::Acquire(2), Ev::Query(2, p(&[3, 4]), T_A), Ev::Walk(2)]),
+            // commit(true): serial bumped unless the writer stored a SOA; removing the SOA counts as not having stored one
+            (vec![soa.clone(), www.clone()], vec![Ev::Acquire(0), Ev::WAcquire, Ev::WOpen, Ev::Update(Nm::flat(2), T_A, 13), Ev::CommitBump, Ev::Acquire(1), Ev::Query(1, Nm::flat(0), T_SOA), Ev::Query(0, Nm::flat(0), T_SOA),
+                Ev::Query(1, Nm::flat(3), T_A), Ev::WOpen, Ev::Update(Nm::flat(0), T_SOA, 7), Ev::CommitBump, Ev::Acquire(2), Ev::Query(2, Nm::flat(0), T_SOA), Ev::WOpen, Ev::Remove(Nm::flat(0), T_SOA), Ev::CommitBump,
+                Ev::Acquire(3), Ev::Query(3, Nm::flat(0), T_SOA), Ev::CommitBump, Ev::Drop, Ev::Acquire(0), Ev::Query(0, Nm::flat(0), T_SOA), Ev::Walk(0), Ev::Walk(1)]),
             // ANY
             (vec![soa.clone(), www.clone(), Init::Rrset(Nm::flat(2), T_TXT, 12)], vec![Ev::Acquire(0), Ev::Query(0, Nm::flat(2), T_ANY), Ev::Query(0, Nm::flat(3), T_ANY), Ev::Query(0, Nm::flat(0), T_ANY),
                 Ev::WAcquire, Ev::WOpen, Ev::Remove(Nm::flat(2), T_A), Ev::Remove(Nm::flat(2), T_TXT), Ev::Update(Nm::flat(3), T_AAAA, 13), Ev::Query(0, Nm::flat(2), T_ANY), Ev::Commit, Ev::Acquire(1),
